@@ -105,9 +105,10 @@ func checkValueLookup(r *Run, prog *Program, a *Anchors, pfx string) {
 		if prog.InModule(c) && c != a.GetOpts && c.Signature.Results().Len() == 1 && isBool(c.Signature.Results().At(0).Type()) {
 			return true
 		}
-		return bexprHelper(prog, a, c) && !recursive(prog, c)
+		return bexprHelper(prog, a, c)
 	}
-	ps.MaxDepth = 4
+	ps.MaxDepth = 6
+	ps.Recursion = 3 // a helper written recursively (one binding per call) is followed three bindings deep
 	sums := ps.Run(fn)
 	if len(sums) == 0 {
 		r.Fail("undecided", pfx+".lookup", "paths", prog.pos(fn.Pos()), "no path summaries")
